@@ -12,7 +12,9 @@ EXTENDS Integers, Sequences, TLC, Json
 CONSTANT SnapshotBeforeRun
 
 Modes == {"workspace", "workspace_ppl", "single"}     \* workspace_ppl: the selected script has the .ppl extension
-Inputs == {"none", "text", "lineprotocol"}
+\* line-protocol files: the input is the FIRST POINT of the file, not its first line: comment lines and blank lines before
+\* it are skipped, a quoted string field may contain a line break, later points are ignored
+Inputs == {"none", "text", "lineprotocol", "lp_comment_first", "lp_blank_first", "lp_newline_in_field"}
 Outputs == {"json", "lineprotocol"}
 Kinds == {"noop", "addField", "toTag", "setMeas", "clearMeas", "setTime", "dropMsg", "useSibling", "loadErr", "runErr", "linkErr"}
 
